@@ -366,6 +366,11 @@ func scanPrngShare(c *core.Ctx) []ob {
 		var bad ast.Expr
 		check := func(e ast.Expr) {
 			e = unparen(e)
+			// the receiver's generator seen through a type assertion is still the receiver's generator (its key, read
+			// from there, starts a second generator on the same stream)
+			if ta, ok := e.(*ast.TypeAssertExpr); ok && ta.Type != nil {
+				e = unparen(ta.X)
+			}
 			sel, ok := e.(*ast.SelectorExpr)
 			if !ok || bad != nil {
 				return
